@@ -36,6 +36,7 @@
 #include "runtime/dyn_array.h"
 #include "runtime/list_int.h"
 #include "runtime/list_string.h"
+#include "runtime/nl_string.h"
 
 int g_argc = 0;
 char **g_argv = NULL;
@@ -570,6 +571,123 @@ static void replay_gc(const cJSON *h) {
     gc_shutdown();      /* frees whatever is left (also exercises the shutdown path under ASan) */
 }
 
+
+/* ------------------------------------------------------------------ str family (nl_string.c) */
+static size_t json_bytes(const cJSON *arr, unsigned char *out, size_t cap) {
+    size_t n = (size_t)cJSON_GetArraySize(arr);
+    if (n > cap) n = cap;
+    for (size_t k = 0; k < n; k++) out[k] = (unsigned char)cJSON_GetArrayItem(arr, (int)k)->valuedouble;
+    return n;
+}
+
+/* compare one nl_string_t with a prescribed {bytes|len, cap, nt, utf} record */
+static bool compare_str(nl_string_t *s, const cJSON *want, char *why, size_t n) {
+    unsigned char b[256];
+    size_t len = json_bytes(J(want, "bytes"), b, sizeof b);
+    if (!s) { snprintf(why, n, "string is NULL"); return false; }
+    if (nl_string_length(s) != len) { snprintf(why, n, "length %zu, prescribed %zu", nl_string_length(s), len); return false; }
+    if (s->capacity != (size_t)JI(want, "cap")) { snprintf(why, n, "capacity %zu, prescribed %ld", s->capacity, JI(want, "cap")); return false; }
+    if (s->null_terminated != (JI(want, "nt") != 0)) { snprintf(why, n, "null_terminated %d, prescribed %ld", (int)s->null_terminated, JI(want, "nt")); return false; }
+    if (s->is_utf8 != (JI(want, "utf") != 0)) { snprintf(why, n, "is_utf8 %d, prescribed %ld", (int)s->is_utf8, JI(want, "utf")); return false; }
+    size_t outlen = 0;
+    const unsigned char *d = (const unsigned char *)nl_string_to_binary(s, &outlen);
+    if (outlen != len) { snprintf(why, n, "to_binary length %zu, prescribed %zu", outlen, len); return false; }
+    for (size_t k = 0; k < len; k++) {
+        char c;
+        if (d[k] != b[k]) { snprintf(why, n, "byte %zu is %u, prescribed %u", k, d[k], b[k]); return false; }
+        if (!nl_string_byte_at_safe(s, k, &c) || (unsigned char)c != b[k]) { snprintf(why, n, "byte_at_safe(%zu) disagrees", k); return false; }
+    }
+    if (s->null_terminated && d[len] != 0) { snprintf(why, n, "null_terminated is set but data[length] != 0"); return false; }
+    return true;
+}
+
+typedef struct { nl_string_t *s; const cJSON *e; const cJSON *st; char why[512]; } SStepCtx;
+
+static int do_sstep(void *p) {
+    SStepCtx *x = (SStepCtx *)p;
+    const char *op = JS(x->e, "op"), *res = JS(x->e, "res");
+    long i = JI(x->e, "i"), v = JI(x->e, "v"), ret = JI(x->e, "ret");
+    const cJSON *r = J(x->e, "r");
+    nl_string_t *out = NULL;
+    bool produces = false;
+    x->why[0] = 0;
+#define BAD(...) do { snprintf(x->why, sizeof x->why, __VA_ARGS__); return 1; } while (0)
+    if (!strcmp(op, "byte_at_safe")) {
+        char c = 0;
+        bool ok = nl_string_byte_at_safe(x->s, (size_t)i, &c);       /* -1 becomes SIZE_MAX */
+        if (!strcmp(res, "fail")) { if (ok) BAD("byte_at_safe out of range reported success"); return 0; }
+        if (!ok || (unsigned char)c != (unsigned char)ret) BAD("byte_at_safe returned a wrong byte");
+        return 0;
+    }
+    if (!strcmp(op, "validate")) { bool ok = nl_string_validate_utf8(x->s); if (ok != (ret != 0)) BAD("validate_utf8 returned %d, prescribed %ld", (int)ok, ret); return 0; }
+    if (!strcmp(op, "utf8_length")) { int64_t n = nl_string_utf8_length(x->s); if (n != ret) BAD("utf8_length %lld, prescribed %ld", (long long)n, ret); return 0; }
+    if (!strcmp(op, "utf8_char_at")) { int32_t c = nl_string_utf8_char_at(x->s, (size_t)i); if (c != ret) BAD("utf8_char_at(%ld) = %d, prescribed %ld", i, (int)c, ret); return 0; }
+    if (!strcmp(op, "to_cstr")) { const char *c = nl_string_to_cstr(x->s); if (!c || c != x->s->data) BAD("to_cstr did not return the data pointer"); return 0; }
+    if (!strcmp(op, "reserve")) { nl_string_reserve(x->s, (size_t)i); return 0; }
+    if (!strcmp(op, "shrink")) { nl_string_shrink_to_fit(x->s); return 0; }
+    if (!strcmp(op, "free")) { nl_string_free(x->s); x->s = NULL; return 0; }
+    if (!strcmp(op, "concat")) { out = nl_string_concat(x->s, x->s); produces = true; }
+    else if (!strcmp(op, "substring")) { out = nl_string_substring(x->s, (size_t)i, (size_t)v); produces = true; }
+    else if (!strcmp(op, "clone")) { out = nl_string_clone(x->s); produces = true; }
+    if (produces) {
+        char w2[300];
+        if (!out) BAD("%s returned NULL", op);
+        if (out == x->s) BAD("%s returned its argument", op);
+        if (!compare_str(out, r, w2, sizeof w2)) { snprintf(x->why, sizeof x->why, "result of %s: %s", op, w2); nl_string_free(out); return 1; }
+        if (!strcmp(op, "clone") && !nl_string_equals(out, x->s)) { nl_string_free(out); BAD("clone is not equal to the original"); }
+        nl_string_free(out);
+        return 0;
+    }
+    BAD("unknown op %s", op);
+#undef BAD
+}
+static int child_sstep_trial(void *p) {
+    SStepCtx *x = (SStepCtx *)p;
+    if (do_sstep(p)) { fprintf(stderr, "TRIAL: %s\n", x->why); return 3; }
+    char why[512];
+    if (x->s && !compare_str(x->s, x->st, why, sizeof why)) { fprintf(stderr, "TRIAL: %s\n", why); return 3; }
+    if (x->s) nl_string_free(x->s);        /* the damage of a bad shrink shows when the string is freed */
+    return 0;
+}
+
+static void replay_str(const cJSON *h) {
+    int nsteps = cJSON_GetArraySize(h);
+    const cJSON *first = cJSON_GetArrayItem(h, 0);
+    const cJSON *e0 = J(first, "e");
+    const char *c = JS(e0, "c");
+    unsigned char b[256];
+    size_t bl = json_bytes(J(e0, "b"), b, sizeof b - 1);
+    char why[1200];
+    nl_string_t *s;
+    g_replays++;
+    b[bl] = 0;
+    if (!strcmp(c, "new")) s = nl_string_new((const char *)b);
+    else if (!strcmp(c, "binary")) s = nl_string_new_binary(b, bl);
+    else s = nl_string_with_capacity((size_t)JI(e0, "n"));
+    if (!compare_str(s, J(first, "s"), why, sizeof why)) { fail(0, e0, "state after construction differs from the spec", why); if (s) nl_string_free(s); return; }
+    for (int k = 1; k < nsteps; k++) {
+        const cJSON *st = cJSON_GetArrayItem(h, k);
+        const cJSON *e = J(st, "e");
+        const char *dev = JS(e, "dev");
+        SStepCtx x; x.s = s; x.e = e; x.st = J(st, "s"); x.why[0] = 0;
+        g_steps++;
+        if (dev[0]) {
+            ChildResult r = run_child(child_sstep_trial, &x);
+            if (!(r.how == 'E' && r.code == 0) || has_sanitizer_report(r.text)) {
+                g_devhits++;
+                snprintf(why, sizeof why, "%s %d: %.1000s", r.how == 'E' ? "exit" : "signal", r.code, r.text);
+                fail(k, e, "in-contract step failed", why);
+                return;                 /* the string is abandoned: its state is not trustworthy */
+            }
+        }
+        if (do_sstep(&x)) { fail(k, e, "result of the call differs from the spec", x.why); s = x.s; break; }
+        s = x.s;
+        if (!s) return;                 /* freed: end of the history */
+        if (!compare_str(s, x.st, why, sizeof why)) { fail(k, e, "state after the step differs from the spec", why); break; }
+    }
+    if (s) nl_string_free(s);
+}
+
 /* ------------------------------------------------------------------ main */
 int main(int argc, char **argv) {
     if (argc < 3) { fprintf(stderr, "usage: rt_probe <histories.ndjson> <report.ndjson> [--resume LINE KINDIDX]\n"); return 2; }
@@ -598,7 +716,12 @@ int main(int argc, char **argv) {
         if (!rec) { fprintf(stderr, "rt_probe: cannot parse line %ld\n", g_line); return 2; }
         const char *family = JS(rec, "family");
         const cJSON *h = J(rec, "h");
-        if (!strcmp(family, "gc")) {
+        if (!strcmp(family, "str")) {
+            if (g_line == skip + 1 && skipk > 0) { cJSON_Delete(rec); continue; }
+            g_kind = "str";
+            fprintf(g_rep, "@ %ld 0 str\n", g_line); fflush(g_rep);
+            replay_str(h);
+        } else if (!strcmp(family, "gc")) {
             g_kind = "gc";
             if (g_line == skip + 1 && skipk > 0) { cJSON_Delete(rec); continue; }
             fprintf(g_rep, "@ %ld 0 gc\n", g_line); fflush(g_rep);
